@@ -7,16 +7,21 @@ use std::io::Write as _;
 pub struct Out {
     w: std::io::BufWriter<std::io::Stdout>,
     pub lines: u64,
+    /// KV_UNBUFFERED=1: flush after every line (used to locate the case after which the process aborted)
+    unbuffered: bool,
 }
 
 impl Out {
     pub fn new() -> Self {
-        Out { w: std::io::BufWriter::with_capacity(1 << 20, std::io::stdout()), lines: 0 }
+        Out { w: std::io::BufWriter::with_capacity(1 << 20, std::io::stdout()), lines: 0, unbuffered: std::env::var_os("KV_UNBUFFERED").is_some() }
     }
     /// family \t args \t impl \t std \t tag
     pub fn line(&mut self, fam: &str, args: &str, imp: &str, std_: &str, tag: &str) {
         let _ = writeln!(self.w, "{}\t{}\t{}\t{}\t{}", fam, args, imp, std_, if tag.is_empty() { "-" } else { tag });
         self.lines += 1;
+        if self.unbuffered {
+            let _ = self.w.flush();
+        }
     }
     pub fn flush(&mut self) {
         let _ = self.w.flush();
